@@ -38,6 +38,7 @@ class Plan:
         self.assumptions = []
         self.extra_axioms = []
         self.thorough_only = []      # callables(ctx) -> dict for the thorough tier
+        self.oracles = []            # native property-level scripts (under native/) used as replay of last resort
         self.level = "proof"
         self.api_preconditions = []
 
@@ -217,14 +218,50 @@ def run(pid, tier, seed, do_replay=None):
                                            % (ob.name, ob.where, getattr(ob, "reason", "")))
             continue
         # refuted
+        if ob.kind == "model-limit":
+            status["undecided"].append("%s (%s): outside the modelled semantics (e.g. negative index wrap-around); "
+                                       "model %s" % (ob.name, ob.where, str({k: v for k, v in (ob.model or {}).items()
+                                                                             if not k.startswith("__")})[:200]))
+            continue
         f = finding_for(pid, ob, findings)
         if f is not None:
             status["known"].append((ob, f))
             continue
         path, reproduced, out = replay.write_and_run(pid, ob, plan, ctx)
+        ob._not_reproduced = not reproduced
         n_viol += 1
         tail = "" if reproduced else " no-failing-input-found"
         lines.append("VIOLATION property=%s replay=%s obligation=%s%s" % (pid, path, ob.name, tail))
+    # replay of last resort: obligations that are refuted/undecided without a native failing input -> run the
+    # property-level native oracle on small concrete systems; a failing input found there is a real violation
+    doubtful = [ob for ob in all_obs if ob.verdict in ("undecided", "candidate")
+                or (ob.verdict == "refuted" and getattr(ob, "_not_reproduced", False))]
+    unsupported_fns = [q for q, rep in ctx.reports.items() if rep.unsupported]
+    if not doubtful and unsupported_fns and plan.oracles:
+        # code the executor cannot follow any more (construct outside the modelled subset): undecided by proof; the
+        # native oracle may still exhibit a failing input
+        class _U:
+            pass
+        for q in unsupported_fns:
+            u = _U()
+            u.name, u.verdict, u.reason = "outside-modelled-subset:" + q.split("::")[1], "undecided", \
+                "; ".join(ctx.reports[q].unsupported)[:200]
+            doubtful.append(u)
+    if doubtful and plan.oracles and not any(finding_for(pid, ob, findings) for ob in doubtful
+                                             if hasattr(ob, "where")):
+        for script in plan.oracles:
+            path, reproduced, out = replay.run_oracle(pid, script, doubtful)
+            if reproduced:
+                ob0 = doubtful[0]
+                # the undecided/candidate entries of these obligations are superseded by the demonstrated violation
+                names = set(o.name for o in doubtful)
+                status["undecided"] = [u for u in status["undecided"] if not any(u.startswith(n) for n in names)
+                                       and not any(u.startswith(q + ": outside the modelled subset") for q in unsupported_fns)]
+                lines = [ln for ln in lines if not any(("obligation=" + n) in ln for n in names)]
+                n_viol = sum(1 for ln in lines if ln.startswith("VIOLATION"))
+                n_viol += 1
+                lines.append("VIOLATION property=%s replay=%s obligation=%s" % (pid, path, ob0.name))
+                break
     for kind, r1 in status["violations"]:
         f = None
         for fd in findings:
